@@ -10,6 +10,7 @@ From ClapModel Require Import ParseProofs.Relations ParseProofs.RelationsTree Pa
 From ClapModel Require Import ParseProofs.ValidateTotal.
 From ClapModel Require Import ParseProofs.Safe ParseProofs.Invariant ParseProofs.Totality ParseProofs.TotalityMain ParseProofs.IndexInv.
 From ClapModel Require Import ParseProofs.Globals.
+From ClapModel Require ParseProofs.RequiresChain.
 From RecordUpdate Require Import RecordSet.
 Import RecordSetNotations.
 Open Scope N_scope.
@@ -515,3 +516,13 @@ Theorem C03_start_custom_arg_coherent_nonvacuous :
                 /\ coherent_b c m' = true /\ ex m' i_g = true /\ ex m' i_a = true /\ ex m' i_d = true.
 Proof. exact start_custom_arg_coherent_nonvacuous. Qed.
 Print Assumptions C03_start_custom_arg_coherent_nonvacuous.
+
+(** ** after the repair of [Command::unroll_arg_requires] (conditional rules behind a [requires] chain are no longer
+    judged against the root's values; docs/notes/C10.md): the requirement set [validate] works from IS the set
+    [Required] of the specification -- [gather_requires_spec] gave "⊇" (what soundness needs), the repaired code
+    gives "⊆" as well (proof: ParseProofs/RequiresChain.v through C10's [requirement_set_exact]) *)
+Theorem C03_required_set_exact : forall c mt required, fm_wf mt ->
+  gather_requires c mt (required_graph c) = Some required ->
+  forall x, In x required <-> Required c mt (present mt) x.
+Proof. exact RequiresChain.required_set_exact. Qed.
+Print Assumptions C03_required_set_exact.
